@@ -94,7 +94,12 @@ func main() {
 	}
 
 	// map zero elements
-	m := map[string]S{}
+	// (S contains an array: not usable as a map value in Wa, known finding array_eq)
+	m := map[string]struct {
+		i int
+		s string
+		p *int
+	}{}
 	println(m["x"].i, m["x"].s == "", m["x"].p == nil)
 	mi := map[int][]int{}
 	println(mi[0] == nil, len(mi[0]))
